@@ -147,7 +147,69 @@ def run_pair(case):
         me.deviation_tree = orig
 
 
-KINDS = {"cfg": run_cfg, "pair": run_pair}
+def run_rwstep(case):
+    """Transition-level commuting diagram: one real Reweighter.run() from a synthetic state S and from its shifted image tau_c(S)
+    (logL += c, logZ_t += beta_t c): same beta, same normalised weights / ESS, recorded logZ shifted by beta_new*c."""
+    from checks import c05
+    from tempest.steps.reweight import Reweighter
+
+    res = Res()
+    n, W, ratio = case["n"], case["W"], case["ratio"]
+    N = n * W
+    from scipy.stats import norm
+    q = (np.arange(N + n) + 0.5) / (N + n)
+    ell = -0.5 * norm.ppf(q) ** 2 * (1.0 + 0.3 * np.cos(7 * q)) * case["scale"]
+    perm = np.argsort((np.arange(N + n) * 0.6180339887) % 1.0)
+    ell = ell[perm]
+    for bp in case["beta_prevs"]:
+        if bp == 0.0:
+            sizes, betas_h, lv = [n] * W, [0.0] * W, ell[:N]
+            logz_h = [0.0] * W
+        else:
+            sizes, betas_h, lv = [n] * (W + 1), [0.0] * W + [bp], ell
+            logz_h = [0.0] * W + [0.3 * bp]
+        for vv in (None, 0.5, 0.05):
+            outs = {}
+            for c in [0.0] + case["shifts"]:
+                st = c05.build(sizes, betas_h, [z + b * c for z, b in zip(logz_h, betas_h)], [float(v) + c for v in lv], 1 if vv is None else 2)
+                rw = Reweighter(st, None, n_particles=n, ess_ratio=ratio, volume_variation=vv)
+                try:
+                    w = rw.run()
+                except Exception as e:
+                    outs[c] = e
+                    continue
+                outs[c] = (float(st._current["beta"]), np.array(w, copy=True), float(st._current["ess"]), float(st._current["logz"]))
+            res.evals += len(outs)
+            res.trans += len(outs)
+            res.states += 1
+            base = outs[0.0]
+            if isinstance(base, Exception):
+                res.bump("aborted")
+                continue
+            for c in case["shifts"]:
+                o = outs[c]
+                cc = dict(case, beta_prevs=[bp], shifts=[c], only_vv=vv)
+                if case.get("only_vv", "x") != "x" and case["only_vv"] != vv:
+                    continue
+                tag = f"[one reweighting transition from beta_prev={bp!r}, n={n}, {W} warm-up batches, ess_ratio={ratio}, vv={vv}, c={c}]"
+                if isinstance(o, Exception):
+                    res.violate(f"rwstep:raises:{type(o).__name__}", f"Reweighter.run raised {o!r} on the shifted state {tag}", cc)
+                    continue
+                tl = 1e-9 * (1 + abs(c))
+                if abs(o[0] - base[0]) > 1e-9:
+                    res.violate("rwstep:beta", f"new beta {base[0]!r} becomes {o[0]!r} {tag}", cc)
+                    continue
+                if np.max(np.abs(o[1] - base[1])) > 1e-9 or abs(o[2] - base[2]) > 1e-7 * max(1.0, base[2]):
+                    res.violate("rwstep:weights", f"weights/ESS change (max {np.max(np.abs(o[1] - base[1])):.3g}; ESS {base[2]!r} vs {o[2]!r}) {tag}", cc)
+                if abs((o[3] - base[3]) - base[0] * c) > tl:
+                    res.violate("rwstep:logz", f"recorded logZ shifts by {o[3] - base[3]!r}, expected beta_new*c = {base[0] * c!r} {tag}", cc)
+                res.outcome(("rwstep", n, W, ratio, bp, vv, c, base[0]), nontrivial=base[0] > bp)
+    res.traces += 1
+    res.sample({"n": n, "W": W, "ratio": ratio, "beta_prevs": case["beta_prevs"], "shifts": case["shifts"]}, cap=1)
+    return res
+
+
+KINDS = {"cfg": run_cfg, "pair": run_pair, "rwstep": run_rwstep}
 
 FACTORS = [
     ("sample", ["tpcn", "rwm"]),
@@ -166,6 +228,10 @@ def plan(ctx):
     shifts = SHIFTS if th else [SHIFTS[0], SHIFTS[2], SHIFTS[4]]
     cases = [{"kind": "cfg", "cfg": dict(r, n_particles=24, n_total=96), "base": ctx.seed, "shifts": shifts, "max_dev": 1, "max_runs": 30 if th else 6} for r in rows]
     ctx.bounds.update({"configs": len(rows), "tuples_covered": f"{cov}/{tot}", "shifts": shifts, "max_deviations": 1})
+    bps = [0.0, 0.25, 0.9, 1 - 1e-3, 1 - 1.1e-4, 1 - 9e-5, 1 - 6.103515625e-05, 1 - 1e-6, 1.0]
+    steps = [{"kind": "rwstep", "n": n, "W": W, "ratio": r, "scale": sc, "beta_prevs": bps, "shifts": SHIFTS}
+             for n in (16, 64) for W in (2, 3) for r in (1.0, 1.5) for sc in (0.05, 1.0, 20.0)]
+    ctx.explore("single-transition-diagram", steps)
     agg = ctx.explore("paired-runs", cases)
     if agg.extra.get("run_cap_hit"):
         ctx.cap(f"tape-deviation tree truncated in {agg.extra['run_cap_hit']} configurations (0-deviation tape and the earliest 1-deviation tapes complete)")
